@@ -9,6 +9,7 @@ import (
 	"os"
 	"os/exec"
 	"path/filepath"
+	"regexp"
 	"runtime"
 	"sort"
 	"strconv"
@@ -98,6 +99,67 @@ func installSink() {
 		g.arrived <- struct{}{}
 		<-g.release
 	})
+}
+
+// blocked runs f and tells whether it is BLOCKED (as opposed to slow: the machine is shared and an fsync can take
+// seconds): after hangDeadline the goroutines inside the store are sampled every 5 s; the call counts as blocked only
+// when f has not returned and three consecutive samples are identical (nothing inside the store moves any more), or
+// after 6 x hangDeadline.
+func blocked(f func()) bool {
+	done := make(chan struct{})
+	go func() {
+		defer func() {
+			if x := recover(); x != nil {
+				vh.Fatalf("panic in a guarded call: %v\n%s", x, goroutineDump())
+			}
+			close(done)
+		}()
+		f()
+	}()
+	return stuck(done)
+}
+
+func stuck(done <-chan struct{}) bool {
+	select {
+	case <-done:
+		return false
+	case <-time.After(hangDeadline):
+	}
+	prev, same := storeStacks(), 0
+	for i := 0; i < int(5*hangDeadline/(5*time.Second)); i++ {
+		select {
+		case <-done:
+			return false
+		case <-time.After(5 * time.Second):
+		}
+		if cur := storeStacks(); cur == prev {
+			if same++; same >= 3 {
+				return true
+			}
+		} else {
+			prev, same = cur, 0
+		}
+	}
+	return true
+}
+
+var hexArgs = regexp.MustCompile(`0x[0-9a-f]+|\+0x[0-9a-f]+|, \d+ minutes`)
+
+// storeStacks: the stacks of all goroutines that are inside embedded/store or an appendable, without addresses
+func storeStacks() string {
+	buf := make([]byte, 4<<20)
+	n := runtime.Stack(buf, true)
+	var keep []string
+	for _, g := range strings.Split(string(buf[:n]), "\n\n") {
+		if strings.Contains(g, "embedded/store") || strings.Contains(g, "appendable") {
+			if strings.Contains(g, "doIndexing") || strings.Contains(g, "stuck(") {
+				continue
+			}
+			keep = append(keep, hexArgs.ReplaceAllString(g, ""))
+		}
+	}
+	sort.Strings(keep)
+	return strings.Join(keep, "\n\n")
 }
 
 func goroutineDump() string {
@@ -227,8 +289,7 @@ func (w *world) open() error {
 
 func (w *world) close() {
 	if w.st != nil && !w.hung {
-		_, hung, _ := vh.Guard(hangDeadline, func() { w.st.Close() })
-		if hung {
+		if hung := blocked(func() { w.st.Close() }); hung {
 			w.hung = true
 		}
 	}
@@ -337,7 +398,7 @@ func (w *world) truncate(n uint64) (hung bool, err error) {
 			w.res.Count("trunc:tx-beyond-MaxConcurrency-in-file-below-cut-file", 1)
 		}
 	}
-	_, hung, _ = vh.Guard(hangDeadline, func() { err = w.st.TruncateUptoTx(n) })
+	hung = blocked(func() { err = w.st.TruncateUptoTx(n) })
 	if hung {
 		w.hung = true
 		tc.Err = "blocked"
@@ -387,7 +448,7 @@ func (w *world) exportOnce(id uint64) (string, string) {
 	var bs []byte
 	var err error
 	tx := store.NewTx(w.st.MaxTxEntries(), w.st.MaxKeyLen())
-	_, hung, _ := vh.Guard(hangDeadline, func() { bs, err = w.st.ExportTx(id, false, false, tx) })
+	hung := blocked(func() { bs, err = w.st.ExportTx(id, false, false, tx) })
 	w.res.Count("op:ExportTx", 1)
 	if hung {
 		w.hung = true
